@@ -6,7 +6,7 @@ for l in open('/verif/properties.jsonl'):
     p = json.loads(l)
     if p['id'] == pid:
         break
-print(f"""You are helping test a verification setup by mutation. You work ONLY inside the git worktree {wt}, a scratch checkout of the Go library polydawn/refmt (a serialization library: token-stream model, JSON and CBOR encoders/decoders, reflection-based object mapping via atlases). Do not read or touch /verif or /repo; do not commit; do not use the network (set `export GOFLAGS=-mod=mod GOPROXY=off GOSUMDB=off GOTOOLCHAIN=local` in every shell call; `go test -vet=off -count=1 ./...` in the worktree runs the existing suite and it passes offline).
+print(f"""You are helping test a verification setup by mutation. You work ONLY inside the git worktree {wt}, a scratch checkout of the Go library polydawn/refmt (a serialization library: token-stream model, JSON and CBOR encoders/decoders, reflection-based object mapping via atlases). Do not read or touch /verif or /repo; do not commit; do not use `git stash`; do not use the network (set `export GOFLAGS=-mod=mod GOPROXY=off GOSUMDB=off GOTOOLCHAIN=local` in every shell call; `go test -vet=off -count=1 ./...` in the worktree runs the existing suite and it passes offline).
 
 Here is a semantic property that the library is supposed to satisfy:
 
